@@ -27,6 +27,7 @@ structure Casc where
 structure Plan where
   workers   : Nat
   failFirst : Bool
+  ecal      : Bool
   cascs     : List Casc
 
 def parseNode (s : String) : Option Node :=
@@ -53,12 +54,14 @@ def parsePlan (s : String) : Option Plan :=
   | hdr :: cs => do
     let mut workers := 1
     let mut ff := false
+    let mut ecal := false
     for h in hdr.splitOn "," do
       let v := ((h.drop 1).toString.toNat?).getD 0
       if h.startsWith "W" then workers := v
       if h.startsWith "F" then ff := v == 1
+      if h.startsWith "M" then ecal := v == 1
     let cascs ← cs.mapM parseCasc
-    some { workers, failFirst := ff, cascs }
+    some { workers, failFirst := ff, ecal, cascs }
   | _ => none
 
 def childrenOf (c : Casc) (n k : Nat) : List Nat :=
@@ -166,7 +169,9 @@ def expected (p : Plan) (c : Casc) : String :=
         | none => [(9999, 9999)]
       let errs := sortPairs errs
       let es := if errs.isEmpty then "-" else ",".intercalate (errs.map fun (n, k) => s!"{n}.{k}e")
-      s!"ret=1 early={pending.length} handler={s.handlerCalls} fin={fin.length}/{handed.length} errs={es} foreign=0 nil=0"
+      -- through ECAL sinks the root monitor is created inside the builtin: handler and monitors are not observable
+      let hf := if p.ecal then "handler=- fin=-" else s!"handler={s.handlerCalls} fin={fin.length}/{handed.length}"
+      s!"ret=1 early={pending.length} {hf} errs={es} foreign=0 nil=0"
 
 def nontrivial (p : Plan) : Bool :=
   p.cascs.any fun c => c.nodes.size ≥ 3 && c.nodes.any fun n => n.rules.any (!·)
